@@ -19,6 +19,38 @@ def close(a, b, scale=1.0, rt=None):
     return a.shape == b.shape and bool(np.all(np.abs(a - b) <= AT * scale + rt * np.maximum(np.abs(a), np.abs(b))))
 
 
+def same_up_to_rounding(c_x, ref_x, scale, restart, ckpt, rt=None, seed=0, trials=6, factor=10.0):
+    """'equal up to rounding' for the continuation of a restart.  First the fixed allowance (RT/AT).  When that fails, the
+    allowance is CALIBRATED: the restart is repeated from copies of the checkpoint whose stored differences are perturbed by one
+    rounding of the quantities they are subtracted from (eps * max|x| on sk, eps * max|jac| on yk - what rebuilding the history
+    from differences costs); if such perturbations move the continuation as much as it differs from the reference, the
+    difference is rounding (amplified by the conditioning of the problem, e.g. finite-difference gradients), not a defect.
+    restart(ck) -> x of the continuation from checkpoint ck.  Returns (ok, spread)."""
+    if close(c_x, ref_x, scale, rt=rt):
+        return True, 0.0
+    rng = np.random.default_rng([int(seed) & 0x7fffffff, 99])
+    eps = float(np.finfo(float).eps)
+    ux = eps * max(1e-300, float(np.max(np.abs(ckpt.x))))
+    ug = eps * max(1e-300, float(np.max(np.abs(ckpt.jac))))
+    spread = 0.0
+    for _ in range(trials):
+        ck = copy.deepcopy(ckpt)
+        sk = np.asarray(ck.hess_inv.sk, float)
+        yk = np.asarray(ck.hess_inv.yk, float)
+        if sk.size == 0:
+            break
+        ck.hess_inv.sk = sk + rng.choice([-1.0, 0.0, 1.0], size=sk.shape) * ux
+        ck.hess_inv.yk = yk + rng.choice([-1.0, 0.0, 1.0], size=yk.shape) * ug
+        try:
+            xp = np.asarray(restart(ck), float)
+        except Exception:  # noqa
+            continue
+        if xp.shape == np.asarray(c_x).shape:
+            spread = max(spread, float(np.max(np.abs(xp - c_x))))
+    dev = float(np.max(np.abs(np.asarray(c_x, float) - np.asarray(ref_x, float))))
+    return dev <= factor * spread, spread
+
+
 def macroscopic(x_from, x_to, scale):
     """The comparison 'equal up to rounding' is only meaningful while the step itself is far above the
     rounding level (near convergence the restored history differs in the last bits and a stop test or a
@@ -94,7 +126,8 @@ def eval_C06(case):
         if not acc and not (k >= 1 and beq(a.x, U[k - 1].x)):
             rejected_seen = True
         c = _solve(P, x0=a.x, maxiter=k + 1, checkpoint=copy.deepcopy(a), **kw)
-        if macroscopic(a.x, u.x, scale) and not (close(c.x, u.x, scale) and c.nit == u.nit):
+        if macroscopic(a.x, u.x, scale) and not (c.nit == u.nit and same_up_to_rounding(
+                c.x, u.x, scale, lambda ck_, a=a, k=k: _solve(P, x0=a.x, maxiter=k + 1, checkpoint=ck_, **kw).x, a, seed=case["spec"]["pseed"])[0]):
             fail = (f"split k={k}: iterate {k+1} after restart differs from the uninterrupted run by "
                     f"{float(np.max(np.abs(c.x - u.x))):.3e} (last update accepted: {acc})")
             if not acc:
@@ -118,7 +151,9 @@ def eval_C06(case):
             sk2 = pairs_of(ck2)[0]
             prev = _solve(P, x0=x0, maxiter=kcut - 1, **kw, **ex).x if kcut - 1 >= (0 if ck is None else ck.nit) else None
             acc = prev is None or (sk2.shape[0] > 0 and beq(sk2[-1], ck2.x - prev)) or beq(ck2.x, prev)
-            if macroscopic(ck2.x, nxt.x, scale) and not (close(c.x, nxt.x, scale) and c.nit == nxt.nit):
+            if macroscopic(ck2.x, nxt.x, scale) and not (c.nit == nxt.nit and same_up_to_rounding(
+                    c.x, nxt.x, scale, lambda ck_, ck2=ck2, kcut=kcut: _solve(P, x0=ck2.x, maxiter=kcut + 1, checkpoint=ck_, **kw).x, ck2,
+                    seed=case["spec"]["pseed"])[0]):
                 fail = (f"chain link {cnum+1} (restart at iteration {kcut}): next iterate differs from the continued run by "
                         f"{float(np.max(np.abs(c.x - nxt.x))):.3e}" + ("" if acc else " [memory newest entry != x]"))
                 break
@@ -180,10 +215,13 @@ def eval_C07(case):
             sk = pairs_of(sc)[0]
             prev = R.snaps[i - 1][1].x if i >= 1 else np.clip(P.x0, P.lb, P.ub)
             acc = sk.shape[0] > 0 and beq(sk[-1], sc.x - prev)
-            if close(c.x, nxt.x, scale) and c.nit == nxt.nit and c.nfev == nxt.nfev and c.njev != nxt.njev:
+            same_next = c.nit == nxt.nit and same_up_to_rounding(
+                c.x, nxt.x, scale, lambda ck_, sc=sc, k=k: _solve(P, x0=sc.x, checkpoint=ck_, **dict(cfg, maxiter=k + 1)).x, sc,
+                seed=case["spec"]["pseed"])[0]
+            if same_next and c.nfev == nxt.nfev and c.njev != nxt.njev:
                 fail = f"restart from callback state {k}: same continuation but njev {c.njev} != {nxt.njev} of the uninterrupted run"
                 break
-            if not (close(c.x, nxt.x, scale) and c.nit == nxt.nit):
+            if not same_next:
                 if acc or beq(sc.x, prev):
                     fail = f"restart from callback state {k}: next iterate differs from the uninterrupted run by {float(np.max(np.abs(c.x - nxt.x))):.3e}"
                     break
@@ -204,7 +242,9 @@ def eval_C07(case):
             except Exception as e:  # noqa
                 fail = f"restart from callback state {k} raised {type(e).__name__}: {e}"
                 break
-            if c2.nit == n2.nit and not close(c2.x, n2.x, scale, rt=1e-5):
+            if c2.nit == n2.nit and not same_up_to_rounding(
+                    c2.x, n2.x, scale, lambda ck_, sc=sc, k=k: _solve(P, x0=sc.x, checkpoint=ck_, **dict(cfg, maxiter=k + 2)).x, sc,
+                    rt=1e-5, seed=case["spec"]["pseed"])[0]:
                 sk = pairs_of(sc)[0]
                 prev = R.snaps[i - 1][1].x if i >= 1 else np.clip(P.x0, P.lb, P.ub)
                 acc = (sk.shape[0] > 0 and beq(sk[-1], sc.x - prev)) or beq(sc.x, prev)
@@ -598,7 +638,9 @@ def eval_C13(case):
                 scale = 1.0 + float(np.max(np.abs(s_n.x)))
                 newest_is_x = beq(state.get("x_switch", s_k.x), s_k.x) and pairs_of(s_k)[0].shape[0] > 0 and \
                     beq(pairs_of(s_k)[0][-1], s_k.x - (snaps[idx[0] - 1][0].x if idx[0] >= 1 else np.clip(P.x0, P.lb, P.ub)))
-                if case["spec"]["family"] in SMOOTH and macroscopic(s_k.x, s_n.x, scale) and not (close(c.x, s_n.x, scale) and c.nit == s_n.nit):
+                if case["spec"]["family"] in SMOOTH and macroscopic(s_k.x, s_n.x, scale) and not (c.nit == s_n.nit and same_up_to_rounding(
+                        c.x, s_n.x, scale, lambda ck_, s_k=s_k: _solve(P2, x0=s_k.x, checkpoint=ck_, **dict(cfg, maxiter=s_k.nit + 1)).x, s_k,
+                        seed=case["spec"]["pseed"])[0]):
                     fail = (f"{kind} rewrite at iteration {case['k']+1}: next iterate differs from a restart on the new objective by "
                             f"{float(np.max(np.abs(c.x - s_n.x))):.3e}" + ("" if newest_is_x else " [current iterate not appended to the memory]"))
     sig = "C13 " + kind + (" current-iterate-rejected" if fail and "[current iterate" in fail else "") + " " + (fail or "")[:20]
